@@ -225,6 +225,10 @@ def judge_program(asm, acc, m, tup, kw, alias=False):
         PRE = ['nop', 'lr.w x1, x2', 'amoadd.w x5, x6, x7 1 1', 'fence', 'csrrw x1, x2, 3', 'sc.w x1, x2, x3', 'ecall', 'lui x1, 5', 'amoswap.w x8, x9, x10']
         for j in range(skip // 4):
             pre += PRE[(j + len(m) + skip) % len(PRE)] + '\n'
+        if (sum(a for a in tup if isinstance(a, int)) + len(m)) % 5 == 0:
+            # ... directly behind a far call / tail (an auipc + jalr pair whose second half gets a position correction of its own)
+            pre += 'FARFN_ = 0x20000000\n%s FARFN_\n' % ['call', 'tail'][len(m) % 2]
+            skip += 8
         if kw:
             ops += [str(kw['aq']), str(kw['rl'])]
         line = m + (' ' + ', '.join(ops) if ops else '')
@@ -232,7 +236,7 @@ def judge_program(asm, acc, m, tup, kw, alias=False):
     status, exp = operands.expected(m, tup, **(kw or {}))
     # (in alias mode the caller's label table also holds external symbols that are spelled like registers: in a register position a
     # register name is a register)
-    ext = {'labels': {'x5': 0x20000000, 't0': 12, 's1': 9, 'a0': 0x100, 'fp': 3, 'zero': 5, 'ra': 40, 'x8': 31, 'sp': 0}} if alias else None
+    ext = {'labels': {'x5': 0x20000000, 't0': 12, 's1': 9, 'a0': 0x100, 'fp': 3, 'zero': 5, 'ra': 40, 'x8': 31, 'sp': 0, '5': 12, '9': 3, '15': 0, '8': 9, '1': 2}} if alias else None
     o = monitors.observe(asm, pre + line, tap=False, preseed=ext)
     acc['ntkeys'].add(core.ckey('prog', line)) if status != operands.UNSPEC else None
     acc['ctr']['prog_' + status] += 1
